@@ -370,6 +370,9 @@ type concSched struct {
 	Init    [][]string   `json:"init"`
 	Clients [][][]string `json:"clients"`
 	Final   [][]string   `json:"final"`
+	// Rounds: rounds[r][c] is the single command client c sends in round r; all clients of a
+	// round are released together (a barrier per round), typically on a key nobody has touched yet.
+	Rounds [][][]string `json:"rounds,omitempty"`
 }
 
 func oneShot(g *gateway, sid, client int, cmds [][]string, start <-chan struct{}, w *vt.Writer) {
@@ -410,7 +413,61 @@ func runConc(g *gateway, s *concSched, w *vt.Writer) {
 	time.Sleep(20 * time.Millisecond) // let every client connect before the barrier opens
 	close(start)
 	wg.Wait()
+	if len(s.Rounds) > 0 {
+		runRounds(g, s, w)
+	}
 	oneShot(g, s.ID, -2, s.Final, nil, w)
+}
+
+// runRounds keeps one connection per client and runs the rounds one after the other; within a
+// round every client sends its command as soon as the round's gate opens.
+func runRounds(g *gateway, s *concSched, w *vt.Writer) {
+	n := len(s.Rounds[0])
+	gates := make([]chan struct{}, len(s.Rounds))
+	for i := range gates {
+		gates[i] = make(chan struct{})
+	}
+	var ready, done sync.WaitGroup
+	ready.Add(n)
+	rounds := make([]sync.WaitGroup, len(s.Rounds))
+	for r := range rounds {
+		rounds[r].Add(n)
+	}
+	for c := 0; c < n; c++ {
+		done.Add(1)
+		go func(c int) {
+			defer done.Done()
+			conn, err := net.DialTimeout("tcp", g.addr, ioTimeout)
+			if err != nil {
+				fatal("dial: %v", err)
+			}
+			defer conn.Close()
+			rd := bufio.NewReader(conn)
+			ready.Done()
+			for r := range s.Rounds {
+				cmd := s.Rounds[r][c]
+				payload := encode(cmd)
+				<-gates[r]
+				_ = conn.SetDeadline(time.Now().Add(ioTimeout))
+				_, err := conn.Write(payload)
+				var rep []string
+				if err == nil {
+					rep, err = readReply(rd)
+				}
+				if err != nil {
+					fatal("conc schedule %d round %d client %d: %v (alive=%v)", s.ID, r, c, err, g.alive())
+				}
+				w.Emit(vt.Ev{"s": s.ID, "c": c, "i": r, "round": true, "cmd": cmd, "r": rep})
+				rounds[r].Done()
+			}
+		}(c)
+	}
+	ready.Wait()
+	for r := range s.Rounds {
+		close(gates[r])
+		rounds[r].Wait()
+	}
+	done.Wait()
 }
 
 // ------------------------------------------------------------------ mode resp (C31)
